@@ -26,7 +26,7 @@ var (
 	ErrSpaceStorageMissing  = errors.New("space storage missing")
 	ErrIncorrectSpaceHeader = errors.New("incorrect space header")
 
-	ErrTreeStorageAlreadyDeleted = errors.New("tree storage already deleted")
+	ErrTreeStorageAlreadyDeleted = treestorage.ErrTreeDeleted
 )
 
 type SpaceStorage interface {
